@@ -270,6 +270,72 @@ func HarnessC08MapOrder() {
 	verifReach("end")
 }
 
+// HarnessC08Members: a long-lived validator whose schema reaches values through schema-valued
+// additionalProperties, patternProperties and items: three values in a row whose offending members
+// have different names / positions; every call equals a fresh validator (messages name the right member).
+func HarnessC08Members() {
+	leaf := schemaOfType("number")
+	leaf.Maximum = ptrF(10)
+	s := spec.Schema{}
+	var pool []interface{}
+	switch verifChoose(3) {
+	case 0:
+		s.Properties = map[string]spec.Schema{"name": schemaOfType("string")}
+		s.AdditionalProperties = &spec.SchemaOrBool{Allows: true, Schema: &leaf}
+		pool = []interface{}{map[string]interface{}{"name": "x", "a": 1.0}, map[string]interface{}{"name": "x", "b": "no"}, map[string]interface{}{"c": 11.0}, map[string]interface{}{"a": 11.0}}
+	case 1:
+		s.PatternProperties = map[string]spec.Schema{"^p": leaf}
+		pool = []interface{}{map[string]interface{}{"p1": 1.0}, map[string]interface{}{"p2": "no"}, map[string]interface{}{"p3": 11.0}, map[string]interface{}{"p1": 11.0}}
+	default:
+		s.Items = &spec.SchemaOrArray{Schema: &leaf}
+		pool = []interface{}{[]interface{}{1.0}, []interface{}{1.0, "no"}, []interface{}{11.0, 1.0}, []interface{}{1.0, 1.0, 11.0}}
+	}
+	reg := &verifRegistry{}
+	v := NewSchemaValidator(&s, nil, "r", reg)
+	for step := 0; step < 3; step++ {
+		d := pool[verifChoose(len(pool))]
+		got := outcomeOfResult(v.Validate(d))
+		fresh := outcomeOfResult(NewSchemaValidator(&s, nil, "r", reg).Validate(d))
+		verifAssert(sameOutcome(got, fresh), "reuse-equals-fresh")
+	}
+	verifReach("end")
+}
+
+// HarnessC11Param: the panicking format check inside a recycling parameter / header validator (and
+// inside the items of an array parameter); then composite schemas in which two format validators
+// are alive at once must still judge each branch with its own format.
+func HarnessC11Param() {
+	reg := &verifRegistry{panicAt: 1 + verifChoose(2)}
+	first := guarded(func() verifOutcome {
+		switch verifChoose(3) {
+		case 0:
+			p := spec.QueryParam("q").Typed("string", "date")
+			return outcomeOfResult(NewParamValidator(p, reg, WithRecycleValidators(true)).Validate("boom"))
+		case 1:
+			h := spec.ResponseHeader().Typed("string", "date")
+			return outcomeOfResult(NewHeaderValidator("X", h, reg, WithRecycleValidators(true)).Validate("boom"))
+		default:
+			p := spec.QueryParam("q").CollectionOf(spec.NewItems().Typed("string", "date"), "csv")
+			p.Format = "date"
+			return outcomeOfResult(NewParamValidator(p, reg, WithRecycleValidators(true)).Validate([]string{"a", "boom"}))
+		}
+	})
+	verifObserve("panicked", first.panicked)
+	s2 := spec.Schema{}
+	if verifBool() {
+		s2.AllOf = []spec.Schema{strSchema("email", -1), strSchema("date", -1)}
+	} else {
+		s2.OneOf = []spec.Schema{strSchema("email", -1), strSchema("date", -1)}
+	}
+	reg2 := &verifRegistry{}
+	got := guarded(func() verifOutcome { return outcomeOfError(AgainstSchema(&s2, "2020-01-01", reg2)) })
+	fresh := runFresh(&s2, "2020-01-01", reg2)
+	verifAssert(!got.panicked, "later-validation-returns-normally")
+	verifAssert(verifIff(got.valid, fresh.valid), "later-validation-verdict-equals-fresh")
+	verifAssert(verifSameSet(got.errs, fresh.errs), "later-validation-errors-equal-fresh")
+	verifReach("end")
+}
+
 // HarnessC11Panic: the format checker panics at its k-th call; the caller recovers; the pools must
 // still satisfy Inv (engine monitors) and a later validation must equal a fresh one.
 func HarnessC11Panic() {
